@@ -102,3 +102,62 @@ def call_recorder(pattern, summarise=None):
                 ev = summarise(call, ev)
             st.events.append(ev)
     return hook
+
+
+# ------------------------------------------------------------------------------ chaining abstract runs
+
+class Chain:
+    """A set of abstract states (memory of non-local roots + facts) threaded through a sequence of
+    public API calls. Objects live at named roots, e.g. ("OBJ", "flow")."""
+
+    def __init__(self, interp, states=None):
+        self.interp = interp
+        self.states = states if states is not None else [({}, {}, [])]   # (mem, facts, events)
+
+    @staticmethod
+    def snapshot(st):
+        mem = {r: dict(d) for r, d in st.mem.items() if r[0] not in ("L", "E")}
+        return (mem, dict(st.facts), list(st.events))
+
+    def call(self, body, mkargs, on_outcome):
+        """run body from every state; on_outcome(outcome, st) -> None (drop) or mutates st to
+        install results and returns True to keep it. Returns (new Chain, dropped outcomes)."""
+        new = []
+        dropped = []
+        for mem, facts, events in self.states:
+            def init(st, mem=mem, facts=facts, events=events):
+                for r, d in mem.items():
+                    st.mem[r] = dict(d)
+                st.facts.update(facts)
+                st.events.extend(events)
+            args = mkargs(mem, facts)
+            outs = self.interp.run(body, args, init)
+            for o in outs:
+                if o.kind == "return" and on_outcome(o, o.state):
+                    new.append(self.snapshot(o.state))
+                else:
+                    dropped.append(o)
+        return Chain(self.interp, new), dropped
+
+
+def tree_at(mem, root, path=()):
+    d = mem.get(root, {})
+    n = len(path)
+    out = {p[n:]: l for p, l in d.items() if len(p) >= n and p[:n] == path}
+    if () not in out:
+        out[()] = TOP
+    return out
+
+
+def payload_tree(tree, *steps):
+    """descend through variant payloads: steps like ("Ok", 0), ("Some", 0)"""
+    path = ()
+    for v, i in steps:
+        path += (("v", v), ("f", str(i)))
+    n = len(path)
+    out = {p[n:]: l for p, l in tree.items() if len(p) >= n and p[:n] == path}
+    if () not in out:
+        base = tree.get(())
+        from .interp import mkproj
+        out[()] = ("term", mkproj(base[1], path)) if base and base[0] == "term" else TOP
+    return out
